@@ -92,7 +92,8 @@ uint64_t vh_total(int tier)
         return t;
 }
 
-static const char* LETTERS[MAXK] = {"ACGT", "CATG", "GTAC", "TGCA"};
+/* residues in both cases: the second row is all lower case, the third mixed (kalign keeps the case of its input) */
+static const char* LETTERS[MAXK] = {"ACGT", "catg", "GtAc", "TGCA"};
 static const char* NAMES_A[MAXK] = {"alpha", "beta", "gamma", "delta"};
 /* second naming: names that differ only in letter case (PDB-chain style), still pairwise distinct */
 static const char* NAMES_B[MAXK] = {"1abcA", "1abca", "1ABCa", "1aBca"};
